@@ -319,6 +319,11 @@ func (s *Session) Mail(from string, opts *smtp.MailOptions) error {
 			}
 			return s.endp.wrapErr(msgID, !opts.UTF8, "MAIL", err)
 		}
+
+		// s.mailFrom was set by startDelivery to the normalized address,
+		// keep it: limits are released using it.
+		s.opts = *opts
+		return nil
 	}
 
 	// Keep the MAIL FROM argument for deferred startDelivery.
